@@ -341,6 +341,32 @@ pub fn run(ctx: &Ctx) -> i32 {
             acc.inc("large_cases");
             acc.hist("large_case_shape", &format!("{}-E{}L{}D{}", case.spec.label, ne, case.nl, case.g.dim));
         }
+        // routings with signature entries of magnitude 2 (unimodular shears of the base routing, applied once and twice) and
+        // with a reversed loop: the production path must give the same jacobian and the momentum identity in each of them
+        let mut sheared: Vec<Routed> = vec![];
+        if case.nl >= 1 {
+            let bk = case.base_kin();
+            let n = case.nl;
+            let id: Vec<Vec<i64>> = (0..n).map(|a| (0..n).map(|b| (a == b) as i64).collect()).collect();
+            let mut mats: Vec<Vec<Vec<i64>>> = vec![];
+            let mut neg = id.clone();
+            neg[n - 1][n - 1] = -1;
+            mats.push(neg);
+            if n >= 2 {
+                let mut s1 = id.clone();
+                s1[0][1] = 1;
+                let mut s2 = id.clone();
+                s2[1][0] = -1;
+                mats.push(oracle::kin::mat_mul_i(&s1, &s1));
+                mats.push(oracle::kin::mat_mul_i(&s1, &s2));
+                mats.push(s2);
+            }
+            for m in mats {
+                if let Ok(r) = route_via(&case, &bk.change_basis(&m)) {
+                    sheared.push(r);
+                }
+            }
+        }
         for (si, order) in sectors.iter().enumerate() {
             if si % stride != 0 {
                 continue;
@@ -350,6 +376,13 @@ pub fn run(ctx: &Ctx) -> i32 {
                 return;
             }
             acc.inc("sectors");
+            {
+                let x0 = sector_defaults(&case, order);
+                for r in &sheared {
+                    acc.inc("sheared_routing_executions");
+                    c01_point(&case, r, &x0, acc);
+                }
+            }
             let trop = route_via(&case, &case.tropical_kin(order)).ok();
             let pts = sector_points(&case, order, kk, &roles);
             let pstep = if large { ((pts.len() + max_pts - 1) / max_pts).max(1) } else { 1 };
